@@ -14,7 +14,14 @@ import (
 	"golang.org/x/tools/go/ssa/ssautil"
 )
 
-const repoDir = "/repo"
+// repoDir is the tree under check. SYMGO_REPO points development runs (seeded
+// changes in scratch worktrees) elsewhere; registered checks never set it.
+var repoDir = func() string {
+	if d := os.Getenv("SYMGO_REPO"); d != "" {
+		return d
+	}
+	return "/repo"
+}()
 const modPath = "mvdan.cc/sh/v3"
 
 // ProgramCtx is the loaded program shared by all workers.
